@@ -131,19 +131,39 @@ def inv : Cop → Cop
 /-- `lpar=[*outer.lpar, *new.lpar]` -/
 def addPar (outer : Bool) (e : E) : E := e.setPar (outer || e.par)
 
-/-- `report_new_comparison`: the two `is True` / `is False` shapes, otherwise a fresh `Comparison` -/
-def newComparison (op : Cop) (l r : E) : E :=
+/-- `report_new_comparison` / `_negated`: the expression that stands for `not (l op r)`. The two `is True` /
+`is False` shapes, otherwise a fresh `Comparison`. `not (<comparison> is True)` is the negation of the
+inner comparison (`deep = false` is the code before the fix: it wrote `not <comparison>`, which the
+next run flipped). -/
+def newComparison (op : Cop) (l r : E) (deep : Bool := true) : E :=
   match op, r with
-  | .is_, atom "True" _ => lnot l false
+  | .is_, atom "True" _ =>
+    match deep, l with
+    | true, cmp op' l' r' _ => newComparison op' l' r' true
+    | _, _ => lnot l false
   | .is_, atom "False" _ => l
   | _, _ => cmp (inv op) l r false
+termination_by structural l
 
 /-- `leave_UnaryOperation` on a node whose child has been rewritten already; chains are left alone.
-`keepPar = false` is the code before the fix. -/
-def invertStep (keepPar : Bool) (e : E) : E :=
+`keepPar = false` / `deep = false` is the code before the two fixes. -/
+def invertStep (keepPar : Bool) (e : E) (deep : Bool := true) : E :=
   match e with
-  | lnot (cmp op l r _) pn => if keepPar then addPar pn (newComparison op l r) else newComparison op l r
+  | lnot (cmp op l r _) pn => if keepPar then addPar pn (newComparison op l r deep) else newComparison op l r deep
   | _ => e
+
+/-- the pass as it was before the second-application fix (for the counter-example only) -/
+def invertShallow : E → E
+  | atom n p => atom n p
+  | call r ps p => call r ps p
+  | neg x p => neg (invertShallow x) p
+  | lnot x p => invertStep true (lnot (invertShallow x) p) false
+  | bin k l r p => bin k (invertShallow l) (invertShallow r) p
+  | cmp o l r p => cmp o (invertShallow l) (invertShallow r) p
+  | chain l a x c r p => chain (invertShallow l) a (invertShallow x) c (invertShallow r) p
+  | ifx t c f p => ifx (invertShallow t) (invertShallow c) (invertShallow f) p
+  | named n v p => named n (invertShallow v) p
+  | tup a b p => tup (invertShallow a) (invertShallow b) p
 
 def invert (keepPar : Bool) : E → E
   | atom n p => atom n p
@@ -163,8 +183,19 @@ def hasValueAttr : E → Bool
   | atom .. | named .. => true
   | _ => false
 
+/-- does `_negated` raise on `l op r` (it follows `newComparison` into the left operand of `… is True`) -/
+def negatedRaises (op : Cop) (l r : E) : Bool :=
+  match op with
+  | .is_ =>
+    if !hasValueAttr r then true else
+    match r, l with
+    | atom "True" _, cmp op' l' r' _ => negatedRaises op' l' r'
+    | _, _ => false
+  | _ => false
+termination_by structural l
+
 def invertStepRaises : E → Bool
-  | lnot (cmp .is_ _ r _) _ => !hasValueAttr r
+  | lnot (cmp op l r _) _ => negatedRaises op l r
   | _ => false
 
 /-- does `leave_UnaryOperation` raise somewhere during the pass -/
@@ -277,6 +308,45 @@ def evalZ (env : String → Int) : E → Option Int
       pure (if u == 0 then u else v)
   | ifx t c f _ => do let tv ← evalZ env t; let cv ← evalZ env c; let fv ← evalZ env f; pure (if cv != 0 then tv else fv)
   | _ => none
+
+/-! ## normal forms of `combine` and `invert` (for the second-application theorems, Props/PrecIdem) -/
+
+/-- does `combineStep` fold this node -/
+def foldsHere : E → Bool
+  | bin .or (call r₁ _ _) (call r₂ _ _) _ => r₁ == r₂
+  | bin .or (call r₁ _ _) (bin k (call r₂ _ _) _ _) _ => isBoolOp k && r₁ == r₂
+  | bin .or (bin k _ (call r₁ _ _) _) (call r₂ _ _) _ => isBoolOp k && r₁ == r₂
+  | _ => false
+
+/-- normal form: no node that `combineStep` folds -/
+def NF : E → Bool
+  | atom .. => true
+  | call .. => true
+  | neg x _ => NF x
+  | lnot x _ => NF x
+  | bin k l r p => NF l && NF r && !foldsHere (bin k l r p)
+  | cmp _ l r _ => NF l && NF r
+  | chain l _ x _ r _ => NF l && NF x && NF r
+  | ifx t c f _ => NF t && NF c && NF f
+  | named _ v _ => NF v
+  | tup a b _ => NF a && NF b
+
+def isCmp : E → Bool
+  | cmp .. => true
+  | _ => false
+
+/-- normal form: no `not <single comparison>` -/
+def NFi : E → Bool
+  | atom .. => true
+  | call .. => true
+  | neg x _ => NFi x
+  | lnot x _ => NFi x && !isCmp x
+  | bin _ l r _ => NFi l && NFi r
+  | cmp _ l r _ => NFi l && NFi r
+  | chain l _ x _ r _ => NFi l && NFi x && NFi r
+  | ifx t c f _ => NFi t && NFi c && NFi f
+  | named _ v _ => NFi v
+  | tup a b _ => NFi a && NFi b
 
 /-! ## rendering (what libcst's code generator prints for the tree) -/
 
